@@ -295,7 +295,7 @@ func (e *env) emit(evs ...trace.Ev) {
 func main() {
 	out := flag.String("out", ".", "output directory")
 	seed := flag.Int64("seed", 1, "seed")
-	mode := flag.String("mode", "dl", "dl | sync | msg | gossip | bft | pos")
+	mode := flag.String("mode", "dl", "dl | sync | msg | gossip | bft | pos | future")
 	amax := flag.Int("amax", 4, "dl: largest divergence height")
 	deep := flag.Bool("deep", false, "thorough tier: more scenarios, long chains")
 	pairs := flag.Int("pairs", 12, "sync: number of concurrent node pairs")
@@ -313,6 +313,13 @@ func main() {
 		opts = sim.Options{Validators: 4, Nodes: 4, EpochLength: 3, ExtraAccts: 6, PoS: *mode == "pos",
 			LaunchTime: sim.DefaultLaunch + uint64(*seed%1000)*thor.BlockInterval()}
 	}
+	if *mode == "future" {
+		// blocks "ahead of the local clock": the chain ends near the wall clock, the block interval (= period of the
+		// housekeeping retry, = how far ahead a block may be) is the minimum the code allows
+		thor.SetConfig(thor.Config{BlockInterval: 2})
+		launch := uint64(time.Now().Unix()) - 160
+		opts = sim.Options{Validators: 4, Nodes: 4, EpochLength: 3, ExtraAccts: 6, LaunchTime: launch - launch%2}
+	}
 	net := sim.NewNet(opts)
 	e := &env{net: net, tmp: tmp, rng: rand.New(rand.NewSource(*seed)), w: &trace.Writer{},
 		names: trace.NewInterner("b"), stats: map[string]any{}, trunk: []*block.Block{net.B0}, br: map[string][]*block.Block{}}
@@ -328,6 +335,8 @@ func main() {
 		e.runGossip(*deep)
 	case "bft", "pos":
 		e.runBFT(*mode, *deep)
+	case "future":
+		e.runFuture(*deep)
 	default:
 		fail("unknown mode %s", *mode)
 	}
